@@ -52,8 +52,13 @@
 (*        stale cache (exported field such as AddrSpace set after the      *)
 (*        constructor) -- both mean: the first Type() call writes.  For    *)
 (*        instruction caches the same start state is CachePrefilled=FALSE. *)
-(*   FillGlobalCachesUnderLock  repair candidate: AssignGlobalIDs calls    *)
-(*        Type() of every global and function while it holds Module.mu.    *)
+(*   FillGlobalCachesUnderLock  TRUE as the code is since a8ce732:         *)
+(*        AssignGlobalIDs calls Type() of every global and function while  *)
+(*        it holds Module.mu (FALSE = before that repair).  Since 1644016  *)
+(*        Global.Type / Func.Type also re-derive a cache that is stale     *)
+(*        (AddrSpace set after the constructor): that is the start state   *)
+(*        GCachePrefilled = FALSE again; on a consistent module            *)
+(*        (GCachePrefilled = TRUE) no Type() call writes.                  *)
 (*   SharedScratch  TRUE: "someone made a printing helper keep its scratch *)
 (*        table in a package-level variable": NoRace and TextEqual fail    *)
 (*        from every start state, even for printers of different modules   *)
